@@ -188,7 +188,7 @@ pub fn run(ctx: &mut Ctx) {
 			ctx,
 			fam,
 			n,
-			|| (gen::arb_value(gen::ValueCfg::MEDIUM), proptest::collection::vec(any::<u8>(), 0..64), any::<u16>(), any::<u8>()),
+			|| (gen::arb_doc_value(gen::ValueCfg::MEDIUM), proptest::collection::vec(any::<u8>(), 0..256), any::<u16>(), any::<u8>()),
 			|(v, ch, sel, kind)| {
 				let s = shuffle(v, &mut gen::Chooser::new(ch));
 				let m = super::c14::near_copy(&s, *sel, *kind);
